@@ -1,6 +1,5 @@
 \* spec mutant: the mechanism variant "skip_after_wrap" (see GlomErrors.tla) must violate a law
 CONSTANTS
-  Fix = TRUE
   Mutant = "skip_after_wrap"
   MinDepth = 0
   MaxDepth = 1
